@@ -6,6 +6,7 @@
    P_Lzs / P_BitReader as they are completed). *)
 From Lhasa Require Import Base ListN DecBase BitReader Tree Null Lzs Lz5 Generated Decoder
   P_Tree P_Decoder P_DecoderInv P_Null P_Lz5 P_BitReader P_Lzs LhNew P_LhNew PmaCommon Pm1 Pm2 P_PmaCommon P_Pm1 P_Pm2.
+From Lhasa Require Lh1 P_Lh1.
 Local Open Scope N_scope.
 
 (* --- lib/tree_decode.c, shared by the lh4-7/x, lk7 and pm2 decoders --- *)
@@ -175,6 +176,16 @@ Theorem history_list_wf_perm : forall h, hl_wf h -> forall i, i < 256 ->
   aget (h_next h) (aget (h_prev h) i) = i /\ aget (h_prev h) (aget (h_next h) i) = i.
 Proof. exact hl_wf_perm. Qed.
 
+(* -lh1- (dynamic Huffman): for ANY input bytes and any chunking, every read on a state
+   satisfying the invariant (tree structure, frequency order, group bookkeeping, ring
+   position) returns normally and re-establishes it -- through every swap and rebuild *)
+Theorem lh1_never_faults : forall cbs (cb : callback cbs), cb_bounded cb -> forall s c, P_Lh1.lh1_inv s ->
+  exists ch s' c', Lh1.lh1_read cb s c = Ok (ch, s', c') /\ nlen ch <= lh1_max_read /\ P_Lh1.lh1_inv s'.
+Proof. exact P_Lh1.lh1_read_total. Qed.
+
+Theorem lh1_init_inv : exists s0, Lh1.lh1_init = Ok s0 /\ P_Lh1.lh1_inv s0.
+Proof. exact P_Lh1.lh1_init_ok. Qed.
+
 Print Assumptions build_tree_safe_u16.
 Print Assumptions read_bits_safe.
 Print Assumptions read_from_tree_never_faults.
@@ -196,3 +207,5 @@ Print Assumptions pm2_init_inv.
 Print Assumptions pm1_never_faults.
 Print Assumptions pm1_init_inv.
 Print Assumptions history_list_wf_perm.
+Print Assumptions lh1_never_faults.
+Print Assumptions lh1_init_inv.
